@@ -550,6 +550,9 @@ def gen_portfolio(ch, feats):
         elif ex == "mcsame":    # a multi-commodity contract attached twice to the same node (own consumption)
             assets.append(dict(type="MultiCommodityContract", name="mcs", nodes=["n1", "n1", nodes[-1]], price="ec", min_cap=r(0.0, g), max_cap=r(3.0, g),
                                factors_commodities=[1.0, ch.pick("mcs.own", [-0.25, -0.5]), 0.5]))
+        elif ex == "slack":     # a penalty contract as used to keep problems feasible: a very large cost coefficient, never worth using
+            assets.append(dict(type="SimpleContract", name="slack", nodes=[nodes[-1]], price="ec", extra_costs=ch.pick("slack.costs", [1e6, 1e7]),
+                               min_cap=r(0.0, g), max_cap=r(1.0, g)))
         elif ex == "dem":
             assets.append(dict(type="SimpleContract", name="dem", nodes=[nodes[-1]],
                                min_cap=r(-1.0, g), max_cap=r(-1.0, g)))
